@@ -348,7 +348,12 @@ def write_evidence(pid, tier, seed, level, col, rule, assumptions, wall_s, viola
         cov.update(extra)
     ev = {"property_id": pid, "tier": tier, "seed": seed, "level": level, "coverage": cov,
           "assumptions": assumptions, "wall_s": round(wall_s, 2), "violations": violations}
-    path = os.path.join(HOME, "evidence", "%s.json" % pid)
+    if os.path.realpath(REPO) != "/repo":
+        # sensitivity runs against a patched copy (VERIF_REPO) must not overwrite the evidence of
+        # the real tree
+        path = os.path.join(os.environ.get("VERIF_ALT_EVIDENCE", "/tmp/verif-alt-evidence"), "%s.json" % pid)
+    else:
+        path = os.path.join(HOME, "evidence", "%s.json" % pid)
     os.makedirs(os.path.dirname(path), exist_ok=True)
     tmp = path + ".tmp"
     with open(tmp, "w") as f:
